@@ -474,3 +474,35 @@ def stack_jobs(ctx, spec, cfg, timeout=400, mem_mb=10000):
         jobs.append(j)
     ctx.functions.update(['yy_push_state', 'yy_pop_state', 'yy_top_state', 'yylex_destroy', 'yy_init_globals'])
     return jobs, g
+
+
+def yyread_jobs(ctx, spec, cfg, variants=('fread', 'getc', 'read'), m=3, k=3, cap=3, timeout=300, mem_mb=8000):
+    """yyread() unit obligations against a nondeterministic stdio/read(2) environment (+ witness twins)."""
+    jobs = []
+    gens = {}
+    for v in variants:
+        opts = ALLOC_OPTS + (['read'] if v == 'read' else [])
+        key = 'rd_read' if v == 'read' else 'rd_stdio'
+        if key not in gens:
+            gens[key] = _prep(ctx, spec, cfg, key, extra_options=opts)
+        wd, g = gens[key]
+        if not g.ok:
+            continue
+        if 'yyread' not in g.text:
+            ctx.record('rd_%s_%s_%s' % (v, spec.name, cfg.name), 'skipped', reason='no yyread() in this scanner')
+            continue
+        for w in (False, True):
+            src = os.path.join(wd, 'rd_%s%s.c' % (v, '_w' if w else ''))
+            with open(src, 'w') as fh:
+                fh.write(H.yyread_harness(g, cfg, spec, v, m=m, k=k, cap=cap, witness=w))
+            b = scanner_bounds(g, cap, 0)
+            b.update({'fread': k + 1, 'getc': cap + k + 2, 'fn:yyread': cap + k + 2})
+            j = cbmc.Job('rd_%s_%s_%s%s' % (v, spec.name, cfg.name, '_w' if w else ''), wd, [src], b,
+                         includes=[wd, H.HDIR], harness_bound=None, timeout=timeout, mem_mb=mem_mb, gen_file=g.cpath,
+                         expect='witness' if w else 'proved',
+                         meta=dict(engine='RD', entry=spec.name, config=cfg.name + '/' + v,
+                                   bound='request size <= %d, <= %d source bytes, <= %d environment events, each delivering any count and optionally EINTR or a hard error' % (cap, m, k),
+                                   flex_input=g.ltext, flex_args=g.args))
+            jobs.append(j)
+    ctx.functions.update(['yyread'])
+    return jobs, gens
